@@ -4,8 +4,35 @@
 def setup(register, COMMON_TB):
     register(
         "C08", coq="C08", pkg="./internal/mode/static/status/", test="TestVerifC08",
-        rule="TBD",
-        trusted_base=COMMON_TB + [],
-        assumptions=[],
+        rule="one resource of one of the nine kinds per case: the real Prepare*Requests build the request, the real setter runs "
+             "inside the real NewRetryUpdateFunc under wait.ExponentialBackoffWithContext (4 steps) against a fault-injecting "
+             "getter/updater; the first 256 generated cases enumerate every plan over {ok, get error, update conflict, not found}^4, "
+             "the rest draw plans at random (also non-conflict update errors); every successful Get may serve a different previous "
+             "status (own entries same/changed/missing/stale/shuffled/duplicated, 0..limit foreign entries, changed by a foreign "
+             "writer between attempts); a second fault-free round with a later transition time (same or bumped generation) follows; "
+             "fixed cases: D15 and D16 witnesses, one run of the real Updater (real back-off constants), one write per condition "
+             "constructor of the repository (60). Non-trivial = at least two attempts performed and (a foreign entry served, or a "
+             "wholly-owned status with a non-empty previous status); distinct = distinct Coq term",
+        trusted_base=COMMON_TB + [
+            "API server stand-in: a schema walker over the real CRD YAML (config/crd/bases, gateway-api config/crd/experimental of the "
+            "module cache): type, required, items, min/maxItems, min/maxLength in runes, pattern, enum, date-time, list-map keys; "
+            "CEL rules are not evaluated; nulls are rejected",
+            "getter/updater fakes: Get overwrites the object like controller-runtime's cache reader (deep copy + reflect Set); "
+            "conflict, other update errors, get errors and not-found are injected by plan",
+            "projection: a message is identified by its first 128 bytes and its length in runes; reference fields the setters do not "
+            "compare are interned to a number",
+            "the harness states the order in which prepare_requests.go concatenates conditions (defaults, resource, attachment, reload); "
+            "a different order in the code shows as a correspondence mismatch",
+        ],
+        assumptions=[
+            "previous statuses are admissible (the API server stored them) and foreign entries + computed entries fit the CRD's entry "
+            "limit (routes 32, policies and snippets filters 16)",
+            "for NGF policies that bound comes from ngfPolicyAncestorsFull in graph/policy_ancestor.go: modelled (attach_all) and proved "
+            "(C08_ancestor_limit_partial), not driven by this harness (unexported, other package); it holds for the foreign entries seen "
+            "when the graph was built",
+            "entries of this controller in a previous status carry only the reference fields it writes (routes: no group/kind/port)",
+            "the computed entries of one resource have pairwise different references (one per parentRef / ancestor)",
+            "an absent optional reference field equals the empty string (helpers.EqualPointers); mirrored in the model and in erase_entry",
+        ],
         timeout={"quick": 900, "thorough": 3600},
     )
